@@ -63,7 +63,7 @@ def load_baseline(tier="quick"):
 
 def check(prop, tier, seed, a):
     from . import driver
-    from .native import run_native
+    from .native import run_native, _short
     from contracts.index import PROPS
     t0 = time.time()
     cfg = PROPS[prop]
@@ -105,7 +105,7 @@ def check(prop, tier, seed, a):
             try:
                 no = run_native(c, o["sname"], x["model"] or {})
                 rep["native"] = dict(pre_ok=no.pre_ok, exit=no.exit, exc=repr(no.exc) if no.exc else None,
-                                     result=repr(no.result)[:300], failed=no.failed, error=no.error)
+                                     result=_short(no.result)[:300], failed=no.failed, error=no.error)
                 rep["reproduced"] = bool(no.pre_ok and no.failed)
             except Exception as e:
                 rep["native"] = dict(error=f"{type(e).__name__}: {e}")
